@@ -4,7 +4,7 @@ from . import monitors as M
 
 PLAN = [('healthy', 14, 3), ('noext', 16, 1), ('sizes', 5, 2)]
 MONITORS = [M.mon_one_outcome, M.mon_roundtrip, M.mon_body_set]
-THEOREMS = "C01_request_exact, C01_fresh_id, C01_reply_targets_reservation, C01_reply_once, C01_renderer_is_current, C01_fresh_id_run"
+THEOREMS = "C01_request_exact, C01_fresh_id, C01_reply_targets_reservation, C01_reply_once, C01_renderer_is_current, C01_fresh_id_run, C01_ids_increase_run"
 CORPUS = ['C01']
 
 
